@@ -1,5 +1,7 @@
 import Dcg.Model.Sort
 /-! Helper lemmas for C11 (ordering). Core Lean only. -/
+deriving instance DecidableEq for Except
+
 namespace Dcg.Proofs.Sort
 open Dcg.Model.Sort
 
